@@ -109,6 +109,8 @@ def run(tier, corrupt=False):
                     if o["ctor_exc"]:
                         continue        # constructibility is C02's business
                     init = o["initial"]
+                    if init.get("same_writer_twice"):
+                        v.violation(f"{r['prog']} ({how}) twice into one writer", "serializing the same instance twice into one writer gave different bytes: " + init["same_writer_twice"], {"prog": r["prog"], "how": how, "obj": r["obj"], "initial": init})
                     if init.get("write_differs"):
                         v.violation(f"{r['prog']} ({how}) write() differs from serialize()", "the packet's write() does not produce the bytes of serialize()", {"prog": r["prog"], "how": how, "obj": r["obj"], "initial": init})
                     if init["proj_after_serialize"] != init["proj"] or init.get("repr_changed_by_serialize"):
